@@ -312,28 +312,38 @@ func (g *pcToyGen) honest(n int) {
 
 type pcTraceResult struct {
 	Lines    int
-	Accepted bool
+	Accepted bool // every genuine line explained
+	SelfTest bool // ... and the appended corrupted line refused
 	FailLine int
 	FailText string
 	Res      tlc.Result
 }
 
-// pcValidate writes the lines to a scratch file and lets TLC (Proofs_Trace.tla) evaluate them. corrupt >= 0 flips one
-// vector entry of that line first (self test of the binding).
-func pcValidate(lines []*pcLine, corrupt int, timeout time.Duration) (pcTraceResult, error) {
+// pcValidate writes the lines to a scratch file and lets TLC (Proofs_Trace.tla) evaluate them. A copy of the last line
+// with one vector entry flipped is appended as a self test of the binding: TLC must explain every genuine line and stop
+// at the corrupted one (SelfTest = true).
+func pcValidate(lines []*pcLine, timeout time.Duration) (pcTraceResult, error) {
 	out := pcTraceResult{Lines: len(lines)}
+	if len(lines) == 0 {
+		return out, fmt.Errorf("no toy lines")
+	}
 	tmpBase := os.Getenv("VERIF_TMP")
 	if tmpBase == "" {
 		tmpBase = os.TempDir()
 	}
 	var sb strings.Builder
-	for i, l := range lines {
+	for i := 0; i <= len(lines); i++ {
+		j := i
+		if i == len(lines) {
+			j = len(lines) - 1
+		}
+		l := lines[j]
 		m, err := l.T.toyLine(i+1, l.Vec)
 		if err != nil {
 			return out, fmt.Errorf("line %d (%s %s): %v", i+1, l.T.Sys, l.Kind, err)
 		}
 		m["out"] = l.Real
-		if i == corrupt {
+		if i == len(lines) {
 			vec := map[string]bool{}
 			for k, v := range l.Vec.Val {
 				vec[k] = v
@@ -362,7 +372,11 @@ func pcValidate(lines []*pcLine, corrupt int, timeout time.Duration) (pcTraceRes
 	if r.Err != nil {
 		return out, r.Err
 	}
-	out.Accepted = r.OK && r.HW == len(lines)
+	if r.Len != len(lines)+1 {
+		return out, fmt.Errorf("TLC read %d lines, %d were written", r.Len, len(lines)+1)
+	}
+	out.Accepted = r.HW >= len(lines)
+	out.SelfTest = r.HW == len(lines) && !r.OK
 	if !out.Accepted {
 		out.FailLine = r.HW + 1
 		for _, ln := range strings.Split(r.Output, "\n") {
